@@ -391,6 +391,31 @@ def run_dec_glue(M, case):
                                          '%s on %r matched %r: the sign is glued to %r' % (what, t, m, prev), 'dec-glue')
 
 
+DEC_SUFFIX_TEXTS = ['1.5kg', '3.14f', '2.5e3', '4.5_', '.5z', '-6.5x', '1.5 kg', '7.25€', '1.5é', '+2.5cm 3.5', '1.25.', '1.5-', 'x1.5y', '0.5٣']
+
+
+def run_dec_unbounded(M, case):
+    """max_decimal=None means "unbounded": on texts whose digit runs are all shorter than K it must behave exactly like
+    max_decimal=K (real vs real; says nothing about what either of them matches)"""
+    K = 40
+    for variant, (sg, mk) in DEC_VARIANTS.items():
+        for (a, b) in ((0, 9), (0, 2147483647), (3, 120)):
+            for mn in (1, 2):
+                for ext in (False, True):
+                    what = '%s(%d,%d,%d,None|%d,is_extensible=%r)' % (variant, a, b, mn, K, ext)
+                    p = M.build(what + '[None]', lambda: mk(a, b, mn, None, is_extensible=ext))
+                    q = M.build(what + '[%d]' % K, lambda: mk(a, b, mn, K, is_extensible=ext))
+                    if p is None or q is None:
+                        continue
+                    for t in DEC_GLUE_TEXTS + DEC_SUFFIX_TEXTS:
+                        try:
+                            g1, g2 = p.get_matches_and_pos(t), q.get_matches_and_pos(t)
+                        except Exception as e:
+                            M.expect(False, 'crash:' + type(e).__name__, '%s.get_matches_and_pos(%r)' % (what, t), 'dec-unbounded')
+                            continue
+                        M.expect(g1 == g2, 'meta:unbounded-differs', '%s on %r: max_decimal=None finds %r, max_decimal=%d finds %r (fraction-length)' % (what, t, g1, K, g2), 'dec-unbounded')
+
+
 def run_dec_invalid(M, case):
     mins = [0, -1, 1, 2, 3, 1.5, '1', True, None, 1.0, 2.0]
     maxs = [None, 0, 1, 2, 3, 5, -1, 2.5, '3', True, 3.0, 5.0]
@@ -908,6 +933,8 @@ def cases(check, tier, seed, shard, nshards):
             yield {'kind': 'dec-invalid'}
         if shard == 1 % nshards:
             yield {'kind': 'dec-glue'}
+        if shard == 2 % nshards:
+            yield {'kind': 'dec-unbounded'}
         n = (200 if not big else 16000) // nshards + 1
         for i in range(n):
             a = rnd.choice([0, 0, 0, 1, 5, 10, 99, 100, 123])
@@ -961,7 +988,7 @@ def cases(check, tier, seed, shard, nshards):
             yield {'kind': 'date-invalid-late'}
 
 
-RUNNERS = {'date-invalid-late': run_date_invalid_late, 'dec-glue': run_dec_glue, 'int': run_int, 'int-invalid': run_int_invalid, 'dec': run_dec, 'dec-invalid': run_dec_invalid, 'numeral': run_numeral,
+RUNNERS = {'date-invalid-late': run_date_invalid_late, 'dec-glue': run_dec_glue, 'dec-unbounded': run_dec_unbounded, 'int': run_int, 'int-invalid': run_int_invalid, 'dec': run_dec, 'dec-invalid': run_dec_invalid, 'numeral': run_numeral,
            'numeral-invalid': run_numeral_invalid, 'word': run_word, 'ipv4': run_ipv4, 'ipv6': run_ipv6, 'date': run_date,
            'date-invalid': run_date_invalid}
 
